@@ -38,7 +38,10 @@
 //! assert_eq!(controller.limit(), 5); // 11 * 0.5 = 5.5 -> 5
 //! ```
 
+#[cfg(not(feature = "verif-hooks"))]
 use std::sync::atomic::{AtomicUsize, Ordering};
+#[cfg(feature = "verif-hooks")]
+use crate::verif::atomic::{AtomicUsize, Ordering};
 
 /// Configuration for an AIMD controller.
 #[derive(Debug, Clone)]
@@ -188,6 +191,14 @@ impl AimdController {
     /// Get a reference to the configuration.
     pub fn config(&self) -> &AimdConfig {
         &self.config
+    }
+}
+
+#[cfg(feature = "verif-hooks")]
+impl AimdController {
+    /// Address of the limit cell (identifies it for verification harnesses).
+    pub fn limit_cell_addr(&self) -> usize {
+        self.limit.addr()
     }
 }
 
